@@ -2106,12 +2106,19 @@ class TypeBlocks(ContainerOperand):
                 return b[row_key, column]
             return TypeBlocks.from_blocks(b[row_key, column])
 
+        # if no columns are selected no blocks are yielded, and the row count must come from the shape reference: it has to be the number of rows selected, not the number of rows available
+        row_count = self._shape[0]
+        if not (row_key is None
+                or isinstance(row_key, INT_TYPES)
+                or (isinstance(row_key, slice) and row_key == NULL_SLICE)):
+            row_count = len(np.empty(row_count, dtype=bool)[row_key])
+
         # pass a generator to from_block; will return a TypeBlocks or a single element
         return self.from_blocks(
                 self._slice_blocks(
                         row_key=row_key,
                         column_key=column_key),
-                shape_reference=self._shape
+                shape_reference=(row_count, self._shape[1])
                 )
 
     def _extract_iloc(self,
